@@ -156,7 +156,9 @@ DepositKinds(hdr, info) == IF Mode # "edge" THEN {"exist"}
 (* actions *******************************************************************)
 Emit(call, res, allowed, depAllowed) ==
     ~EmitOn \/ PrintT(<<"EDGE", ToJson([hist |-> hist, src |-> tracked, call |-> call, ok |-> res.ok, post |-> res.info,
-                                          allowed |-> allowed, dep_allowed |-> depAllowed])>>)
+                                          allowed |-> allowed, dep_allowed |-> depAllowed,
+                                          signed |-> [i \in DOMAIN call.hdrs |-> Signed(call.hdrs[i], tracked)],
+                                          powers |-> Powers])>>)
 
 Sync(batch) ==
     LET res == SyncResult(batch, tracked)
